@@ -15,6 +15,7 @@ Steps ==
     NIdx(<<Sub1(Lit(0))>>), NIdx(<<Sub1(Lit(1))>>), NIdx(<<Sub1(<<NLast>>)>>),
     NIdx(<<Sub2(Lit(0), Lit(1))>>), NIdx(<<Sub1(Lit(0)), Sub1(Lit(1))>>),
     NIdx(<<Sub1(Lit(1)), Sub1(Lit(0))>>), NIdx(<<Sub2(LastMinus(1), <<NLast>>)>>),
+    NIdx(<<Sub2(Lit(1), Lit(0))>>), NIdx(<<Sub2(<<NLast>>, Lit(0))>>),          \* reversed ranges whose upper bound lies inside the array
     NFilter(NBin("eq", <<NCur, NKey(KA)>>, Lit(1))),
     NFilter(NUn("exists", <<NCur, NKey(KB)>>)),
     NFilter(NBin("gt", <<NCur, NAnyArr>>, Lit(0))),
@@ -35,7 +36,10 @@ Scalars == {VNull, VTrue, VFlt(1), VStr(KX)}
 Good == VObj(<<[k |-> KA, v |-> VFlt(1)]>>)
 Ill  == {VFlt(1), VObj(<<[k |-> KB, v |-> VFlt(2)]>>), VArr(<<>>), VArr(<<Good>>)}
 Placed == {VArr([j \in 1..3 |-> IF j = p THEN x ELSE Good]) : p \in 1..3, x \in Ill}
-DocSeq == SetToSeq(TreesUpTo(Scalars, <<KA, KB>>, MaxNodes) \cup Placed)
+(* array-valued members reached through .* after an array was unwrapped: the step after .* unwraps again *)
+Deep == { VArr(<<VObj(<<[k |-> KB, v |-> VArr(<<Good>>)]>>)>>), VObj(<<[k |-> KB, v |-> VArr(<<Good>>)]>>),
+          VArr(<<VObj(<<[k |-> KB, v |-> VArr(<<VFlt(1), Good>>)]>>), Good>>) }
+DocSeq == SetToSeq(TreesUpTo(Scalars, <<KA, KB>>, MaxNodes) \cup Placed \cup Deep)
 
 ASSUME ndJsonSerialize("paths.ndjson", [i \in 1..Len(PathSeq) |-> [pred |-> FALSE, chain |-> PathSeq[i]]])
 ASSUME ndJsonSerialize("docs.ndjson", [i \in 1..Len(DocSeq) |-> [doc |-> DocSeq[i]]])
